@@ -739,6 +739,34 @@ V("c24-twin-rebuild-via-locals", "C24", "-", "dask_array/io/_from_array.py",
 V("c24-twin-getter-nested-lock-test", "C24", "-", "dask_array/io/_from_array.py",
   "        if is_ndarray and not is_single_block and not lock:", "        if is_ndarray and not lock and not is_single_block:", twin=True)
 
+V("c24-getter-converts-after-release", "C24", "R24.3", "dask_array/_core_utils.py",
+  "        if asarray and (not is_arraylike(c) or isinstance(c, np.matrix)):\n            c = np.asarray(c)\n    finally:\n        if lock:\n            lock.release()\n    return c",
+  "    finally:\n        if lock:\n            lock.release()\n    if asarray and (not is_arraylike(c) or isinstance(c, np.matrix)):\n        c = np.asarray(c)\n    return c", expect="getter")
+V("c24-eager-copy-by-relative-index", "C24", "R24.6", "dask_array/io/_from_array.py",
+  "                source = source[new_region].copy()", "                source = source[region_index].copy()", expect="_accept_slice")
+V("c24-twin-composed-region-renamed", "C24", "-", "dask_array/io/_from_array.py", None, None, twin=True, edits=[
+  ("dask_array/io/_from_array.py", "            new_region = tuple(\n                _compose_slices(", "            composed = tuple(\n                _compose_slices("),
+  ("dask_array/io/_from_array.py", "        else:\n            new_region = region_index\n", "        else:\n            composed = region_index\n"),
+  ("dask_array/io/_from_array.py", "zip(new_region, source.shape))\n        region_nbytes", "zip(composed, source.shape))\n        region_nbytes"),
+  ("dask_array/io/_from_array.py", "                new_region = None\n            elif region_nbytes <= _NUMPY_SLICE_PUSHDOWN_NBYTES_LIMIT:\n                source = source[new_region].copy()\n                new_region = None", "                composed = None\n            elif region_nbytes <= _NUMPY_SLICE_PUSHDOWN_NBYTES_LIMIT:\n                source = source[composed].copy()\n                composed = None"),
+  ("dask_array/io/_from_array.py", "            _region=new_region,", "            _region=composed,"),
+  ("dask_array/io/_from_array.py", "tokenize(old_region, region_index, new_region)", "tokenize(old_region, region_index, composed)"),
+])
+V("c25-npy-reader-wants-unwritten-key", "C25", "R25.7", "dask_array/io/_from_npy_stack.py",
+  "        axis = info[\"axis\"]", "        axis = info[\"stack_axis\"]", expect="stack_axis")
+V("c25-npy-writer-pads-file-names", "C25", "R25.7", "dask_array/io/_to_npy_stack.py",
+  "os.path.join(dirname, f\"{i}.npy\")", "os.path.join(dirname, f\"{i:04d}.npy\")", expect="block file")
+V("c25-npy-writer-keeps-other-axes-chunked", "C25", "R25.7", "dask_array/io/_to_npy_stack.py",
+  "    chunks = tuple((c if i == axis else (sum(c),)) for i, c in enumerate(x.chunks))", "    chunks = tuple((c if i >= axis else (sum(c),)) for i, c in enumerate(x.chunks))", expect="to_npy_stack")
+V("c25-npy-info-records-source-chunks", "C25", "R25.7", "dask_array/io/_to_npy_stack.py",
+  "    meta = {\"chunks\": chunks, \"dtype\": x.dtype, \"axis\": axis}", "    meta = {\"chunks\": x.chunks, \"dtype\": x.dtype, \"axis\": axis}", expect="info")
+V("c25-twin-npy-percent-format-names", "C25", "-", "dask_array/io/_from_npy_stack.py",
+  "os.path.join(dirname, f\"{i}.npy\")", "os.path.join(dirname, \"%d.npy\" % i)", twin=True)
+V("c25-twin-index-rebind-as-ifexp", "C25", "-", "dask_array/io/_store.py",
+  "        if index:\n            index = fuse_slice(region, index)\n        else:\n            index = region\n", "        index = fuse_slice(region, index) if index else region\n", twin=True)
+V("c25-index-rebind-ifexp-swapped", "C25", "R25.2", "dask_array/io/_store.py",
+  "        if index:\n            index = fuse_slice(region, index)\n        else:\n            index = region\n", "        index = region if index else fuse_slice(region, index)\n", expect="load_store_chunk")
+
 V("c02-detector-uses-forward-permutation", "C02", "R02.6", "dask_array/_blockwise.py",
   "        inv = expr._inverse_axes\n        dep_mapping = tuple(parent_mapping[inv[i]] for i in range(len(inv)))", "        dep_mapping = tuple(parent_mapping[ax] for ax in expr.axes)", expect="_symbolic_mapping")
 V("c02-twin-detector-local-rename", "C02", "-", "dask_array/_blockwise.py",
